@@ -247,7 +247,18 @@ func specs(quick bool) []yangval.Spec {
 	u1 := yangval.Spec{Kind: "union", Members: []yangval.Spec{{Kind: "int", Bits: 8}, {Kind: "enumeration", Enums: []string{"auto", "none"}}}}
 	u2 := yangval.Spec{Kind: "union", Members: []yangval.Spec{{Kind: "uint", Bits: 8, Ranges: [][2]string{{"1", "5"}}}, u1, {Kind: "string", Lengths: [][2]string{{"2", "2"}}, Patterns: []string{"[x-z]+"}}}}
 	u3 := yangval.Spec{Kind: "union", Members: []yangval.Spec{{Kind: "boolean"}, {Kind: "decimal64", Fd: 2, Ranges: [][2]string{{"0", "1"}}}}}
-	out = append(out, u1, u2, u3)
+	// members of the same base type that differ in their restrictions only, in both orders, flat and nested
+	u8a := yangval.Spec{Kind: "uint", Bits: 8, Ranges: [][2]string{{"1", "5"}}}
+	u8b := yangval.Spec{Kind: "uint", Bits: 8, Ranges: [][2]string{{"10", "20"}}}
+	sa := yangval.Spec{Kind: "string", Patterns: []string{"a+"}}
+	sb := yangval.Spec{Kind: "string", Patterns: []string{"b+"}, Lengths: [][2]string{{"2", "3"}}}
+	d1 := yangval.Spec{Kind: "decimal64", Fd: 1, Ranges: [][2]string{{"0", "1"}}}
+	d2 := yangval.Spec{Kind: "decimal64", Fd: 2, Ranges: [][2]string{{"5", "6"}}}
+	e1 := yangval.Spec{Kind: "enumeration", Enums: []string{"auto"}}
+	e2 := yangval.Spec{Kind: "enumeration", Enums: []string{"none", "auto"}}
+	un := func(m ...yangval.Spec) yangval.Spec { return yangval.Spec{Kind: "union", Members: m} }
+	out = append(out, u1, u2, u3, un(u8a, u8b), un(u8b, u8a), un(sa, sb), un(sb, sa, u8b), un(d1, d2), un(d2, d1), un(e1, e2), un(e2, e1),
+		un(yangval.Spec{Kind: "boolean"}, un(u8a, u8b)), un(un(u8a, sa), un(u8b, sb)), un(u8a, u8a), un(u8a, u8b, u8a))
 	return out
 }
 
